@@ -13,7 +13,7 @@ THEOREMS = [
     "BSVerif.Props.C07.read_f64_from_float64",
     "BSVerif.Props.C07.read_f64_from_float32",
     "BSVerif.Props.C07.read_f32_from_float64",
-    "BSVerif.Props.C07.float_narrow_refuted",
+    "BSVerif.Props.C07.float_narrow_full",
     "BSVerif.Props.C07.read_nil",
     "BSVerif.Props.C07.read_str_any_format",
     "BSVerif.Props.C07.read_array_size_any_format",
